@@ -613,14 +613,18 @@ def fam_g_reducer(cls, rule):
             emit("result-mentions-no-new-variable", list(IMPORTERS),
                  gmode.skolem_subset(I, spec.vars_of(I, r), spec.vars_of(I, slf), "vars"))
             emit("refines", list(IMPORTERS), z3.Implies(ds.D, z3.And(dr.D, dr.V == ds.V)))
-        return H.run_family(prog, nm, setup, post)
+        return H.run_family(prog, nm, setup, post, force_contract=("_normalize",) if rule == "_normalize_fully_reduced" else ())
     return FamilySpec(nm, list(IMPORTERS) + ["C17"], run, functions=[f"{cls.name}.{rule}"], optional=True)
 
 
 G_REDUCERS = [("Multiply", "_reduce_product_when_multiplying_by_zero"), ("Multiply", "_reduce_product_by_eliminating_ones"),
               ("Add", "_reduce_sum_by_eliminating_zeros"),
               ("Multiply", "_reduce_product_by_consolidating_constants"), ("Add", "_reduce_sum_by_consolidating_constants"),
-              ("Multiply", "_reduce_product_by_eliminating_negations")]
+              ("Multiply", "_reduce_product_by_eliminating_negations"),
+              ("Add", "_normalize_fully_reduced")]
+# (Multiply._normalize_fully_reduced goes through with the same machinery plus the reciprocal-product
+#  lemma, but its quotient obligations are decided erratically by the solvers - proved in 2 s in one
+#  process, unknown after 80 s in the next - so it stays with the bounded-arity families)
 
 _specs4 = specs
 
